@@ -21,6 +21,7 @@ package shell_test
 
 import (
 	"context"
+	"encoding/json"
 	"fmt"
 	"io"
 	"log/slog"
@@ -66,7 +67,8 @@ func c25Setup(t *testing.T) *c25Env {
 	}
 	script := "#!/bin/sh\n" +
 		"f=\"" + e.logDir + "/${VERIF_REQ:-noreq}\"\n" +
-		"{ printf 'START %s %s' \"$0\" \"$#\"; for a in \"$@\"; do printf ' <%s>' \"$a\"; done; printf '\\n'; } >> \"$f\"\n" +
+		"t=0; [ -t 0 ] && t=1\n" +
+		"{ printf 'START %s %s PWD=<%s> TTY=<%s>' \"$0\" \"$#\" \"$(pwd -P)\" \"$t\"; for a in \"$@\"; do printf ' <%s>' \"$a\"; done; printf '\\n'; } >> \"$f\"\n" +
 		"if [ -n \"$VERIF_HOLD\" ]; then read _x; fi\n" +
 		"exit 0\n"
 	for _, n := range c25Names {
@@ -157,6 +159,8 @@ type c25Req struct {
 	maxSess  int
 	hold     bool
 	interact bool
+	rawMeta  []byte // hand-built META document (optional keys really absent); nil = EncodeMeta
+	Doc      string `json:"meta_document,omitempty"`
 }
 
 var c25Peer = identity.AgentID{0xc2, 0x5}
@@ -241,6 +245,9 @@ func c25Open(h *shell.Handler, w *c25Writer, e *c25Env, q *c25Req) (*c25Sess, er
 	mb, err := shell.EncodeMeta(meta)
 	if err != nil {
 		return nil, err
+	}
+	if q.rawMeta != nil {
+		mb = shell.EncodeMessage(shell.MsgMeta, q.rawMeta)
 	}
 	ct, err := s.key.Encrypt(mb)
 	if err != nil {
@@ -703,6 +710,14 @@ func TestVerif_C25(t *testing.T) {
 	t0 = time.Now()
 	c25Conc(r, e)
 	r.Set("wall_conc_s", time.Since(t0).Seconds())
+	t0 = time.Now()
+	c25Histories(r, e)
+	r.Set("wall_history_s", time.Since(t0).Seconds())
+	r.Require("hist_requests", 200)
+	r.Require("hist_refused_after_decoding_with_good_password", 60)
+	r.Require("hist_password_key_absent", 40)
+	r.Require("hist_forbidden_and_refused", 100)
+	r.Require("hist_marker_started", 8)
 	r.Require("acquire_granted", 1000)
 	r.Require("acquire_refused", 100)
 	r.Require("conc_sessions_live", 30)
@@ -1001,5 +1016,347 @@ func c25Conc(r *verifkit.R, e *c25Env) {
 			closeOne(s, false)
 		}
 		h.Close()
+	})
+}
+
+// ---------------------------------------------------------------- request histories on ONE handler
+
+// c25Doc builds a META document by hand: a key that is not in m is really absent from the JSON.
+func c25Doc(m map[string]any) []byte {
+	keys := make([]string, 0, len(m))
+	for k := range m {
+		keys = append(keys, k)
+	}
+	sort.Strings(keys)
+	var sb strings.Builder
+	sb.WriteByte('{')
+	for i, k := range keys {
+		if i > 0 {
+			sb.WriteByte(',')
+		}
+		kb, _ := json.Marshal(k)
+		vb, _ := json.Marshal(m[k])
+		sb.Write(kb)
+		sb.WriteByte(':')
+		sb.Write(vb)
+	}
+	sb.WriteByte('}')
+	return []byte(sb.String())
+}
+
+func (e *c25Env) logLine(req string) string {
+	b, _ := os.ReadFile(filepath.Join(e.logDir, req))
+	return string(b)
+}
+
+func c25Field(line, name string) (string, bool) {
+	i := strings.Index(line, name+"=<")
+	if i < 0 {
+		return "", false
+	}
+	rest := line[i+len(name)+2:]
+	j := strings.IndexByte(rest, '>')
+	if j < 0 {
+		return "", false
+	}
+	return rest[:j], true
+}
+
+type c25Hist struct {
+	r      *verifkit.R
+	e      *c25Env
+	phase  string
+	ci     int
+	h      *shell.Handler
+	w      *c25Writer
+	ex     *shell.Executor
+	pwSet  bool
+	pw     string
+	wl     []string
+	cwd    string
+	serial bool // one goroutine drives this handler: requests without "env" can be attributed
+	mu     sync.Mutex
+	held   []*c25Sess
+	trail  []string
+}
+
+func (x *c25Hist) note(s string) {
+	x.mu.Lock()
+	x.trail = append(x.trail, s)
+	if len(x.trail) > 12 {
+		x.trail = x.trail[len(x.trail)-12:]
+	}
+	x.mu.Unlock()
+}
+
+func (x *c25Hist) witness(q *c25Req) map[string]any {
+	x.mu.Lock()
+	defer x.mu.Unlock()
+	return map[string]any{"request": q, "previous_requests_on_this_handler": append([]string(nil), x.trail...)}
+}
+
+// step sends one generated request on the shared handler and judges it.
+func (x *c25Hist) step(rng *verifkit.Rand, si int) {
+	r, e := x.r, x.e
+	// process creation is expensive here: 2 of 16 kinds start a process when a password is configured
+	kind := []int{0, 7, 2, 2, 3, 3, 4, 5, 6, 8, 9, 10, 10, 10, 10, 13}[rng.Intn(16)]
+	if kind == 13 { // close a held session
+		x.mu.Lock()
+		var s *c25Sess
+		if len(x.held) > 0 {
+			i := rng.Intn(len(x.held))
+			s = x.held[i]
+			x.held = append(x.held[:i], x.held[i+1:]...)
+		}
+		x.mu.Unlock()
+		if s != nil {
+			for dl := time.Now().Add(c25Watchdog); !e.logged(s.req) && time.Now().Before(dl); {
+				time.Sleep(time.Millisecond)
+			}
+			x.h.HandleStreamClose(s.id)
+			x.w.drop(s.id)
+		}
+		return
+	}
+	q := &c25Req{Enabled: true, Mode: "handler-history", WL: x.wl, PwSet: x.pwSet, pwPlain: x.pw,
+		ReqID: fmt.Sprintf("h%d_%d_%s", x.ci, si, rng.Token(6)), Cmd: []string{"run", "go", "a"}[rng.Intn(3)]}
+	doc := map[string]any{}
+	// password: right one by default (key absent when none is configured, half of the time)
+	q.pwSent, q.PwKind = x.pw, "correct"
+	if !x.pwSet && rng.Bool() {
+		q.pwSent, q.PwKind = "", "key-absent"
+	}
+	q.Args = []string{"x" + rng.Token(3)}
+	wantDir := x.cwd
+	ttyKey := false
+	// optional keys of an otherwise ordinary request
+	optional := func() {
+		switch rng.Intn(4) {
+		case 0:
+			q.WorkDir = e.bin + "/sub"
+			wantDir = q.WorkDir
+		case 1:
+			q.WorkDir = e.bin
+			wantDir = q.WorkDir
+		}
+		if rng.Chance(1, 4) {
+			doc["timeout"] = []int{0, 3600, 86400}[rng.Intn(3)]
+		}
+		if rng.Chance(1, 3) {
+			q.interact = rng.Chance(2, 3)
+			ttyKey = true
+		} else if rng.Chance(1, 4) {
+			q.interact = true // interactive stream without "tty": a plain streaming session
+		}
+	}
+	refusedKind := false
+	switch kind {
+	case 0: // ordinary request, ends by itself
+		optional()
+	case 2:
+		q.Class, q.Cmd, refusedKind = "not-whitelisted", []string{"runx", "xrun", "RUN", "b"}[rng.Intn(4)], true
+		optional()
+	case 3:
+		q.Class, refusedKind = "metachar-arg", true
+		q.Args = append(q.Args, "a"+string(c25Metas[rng.Intn(len(c25Metas))]))
+		optional()
+	case 4:
+		q.Class, refusedKind = "absolute-arg", true
+		q.Args = append(q.Args, "/etc/passwd")
+		optional()
+	case 5: // passes validation, takes a slot, cannot start
+		q.Class, refusedKind = "bad-work-dir", true
+		optional()
+		q.WorkDir = "/nonexistent-" + rng.Token(4)
+	case 6:
+		q.Class, q.Cmd, refusedKind = "missing-command", "missing", true
+		optional()
+	case 7: // keeps a slot until closed; later ordinary requests may be refused at the maximum
+		q.hold = true
+	case 8:
+		q.Class = "bad-password"
+		q.pwSent, q.PwKind = "wrong-"+rng.Token(5), "wrong"
+	case 9:
+		q.Class = "bad-password"
+		q.pwSent, q.PwKind = "", "empty-string"
+		doc["password"] = ""
+	default: // 10: the peer sends no password key at all, and as little else as possible
+		q.Class = "bad-password"
+		q.pwSent, q.PwKind = "", "key-absent"
+		if rng.Bool() {
+			q.Args = nil
+		}
+		r.Add("hist_password_key_absent", 1)
+	}
+	if !x.pwSet && q.Class == "bad-password" {
+		q.Class = "no-password-needed"
+	}
+	doc["command"] = q.Cmd
+	if q.Args != nil {
+		doc["args"] = q.Args
+	}
+	if q.pwSent != "" {
+		doc["password"] = q.pwSent
+	}
+	if q.WorkDir != "" {
+		doc["work_dir"] = q.WorkDir
+	}
+	if ttyKey {
+		doc["tty"] = map[string]any{"rows": 24, "cols": 80, "term": "dumb"}
+	}
+	noEnv := x.serial && !q.hold && kind >= 10 && rng.Bool()
+	logName := q.ReqID
+	if noEnv {
+		logName = "noreq"
+		os.Remove(filepath.Join(e.logDir, "noreq"))
+	} else {
+		env := map[string]string{"VERIF_REQ": q.ReqID}
+		if q.hold {
+			env["VERIF_HOLD"] = "1"
+		}
+		doc["env"] = env
+	}
+	q.rawMeta = c25Doc(doc)
+	q.Doc = string(q.rawMeta)
+	q.Must = c25Model(q)
+	s, err := c25Open(x.h, x.w, e, q)
+	if err != nil {
+		r.Inconclusive("harness: " + err.Error())
+		return
+	}
+	r.Add("hist_requests", 1)
+	if s.acked && !q.hold {
+		select {
+		case <-s.stream.closed:
+		case <-time.After(c25Watchdog):
+			r.Inconclusive("watchdog: history session did not end")
+		}
+	}
+	if s.acked && q.hold {
+		for dl := time.Now().Add(c25Watchdog); !e.logged(logName) && time.Now().Before(dl); {
+			time.Sleep(time.Millisecond)
+		}
+	}
+	logged := e.logged(logName)
+	line := e.logLine(logName)
+	if noEnv {
+		os.Remove(filepath.Join(e.logDir, "noreq"))
+	}
+	q.Outcome = fmt.Sprintf("acked=%v logged=%v err=%q", s.acked, logged, s.errMsg)
+	switch {
+	case q.Must != "" && (s.acked || logged):
+		r.Violation(q.Must+":process-started", x.phase, x.ci,
+			fmt.Sprintf("request %d of a history on one handler: the property forbids a process (%s) but one was started: %s", si, q.Must, q.Outcome), x.witness(q))
+	case q.Must != "":
+		r.Add("hist_forbidden_and_refused", 1)
+	case s.acked && logged:
+		r.Add("hist_marker_started", 1)
+		// the process must run with THIS request's optional settings
+		if got, ok := c25Field(line, "PWD"); ok && got != wantDir {
+			r.Violation("request-isolation:work-dir-not-from-this-request", x.phase, x.ci,
+				fmt.Sprintf("request %d asked for work_dir %q (process cwd %q expected) but the process ran in %q", si, q.WorkDir, wantDir, got), x.witness(q))
+		}
+		wantTTY := "0"
+		if q.interact && ttyKey {
+			wantTTY = "1"
+		}
+		if got, ok := c25Field(line, "TTY"); ok && got != wantTTY && e.hasPTY {
+			r.Violation("request-isolation:tty-not-from-this-request", x.phase, x.ci,
+				fmt.Sprintf("request %d (interactive=%v, tty key present=%v) ran with stdin-is-a-tty=%s", si, q.interact, ttyKey, got), x.witness(q))
+		}
+	default:
+		if refusedKind && !s.acked {
+			r.Add("hist_refused_after_decoding_with_good_password", 1)
+		} else if strings.Contains(s.errMsg, "max sessions") {
+			r.Add("hist_refused_at_max", 1)
+		}
+	}
+	if q.Must != "" && q.Class != "bad-password" && q.pwSent == x.pw && !s.acked {
+		r.Add("hist_refused_after_decoding_with_good_password", 1)
+	}
+	x.note(fmt.Sprintf("#%d %s -> %s", si, q.Doc, q.Outcome))
+	if s.acked && q.hold {
+		x.mu.Lock()
+		x.held = append(x.held, s)
+		x.mu.Unlock()
+	} else {
+		x.h.HandleStreamClose(s.id)
+		x.w.drop(s.id)
+	}
+	r.Eval(fmt.Sprintf("%s|%d|%d|%s", x.phase, x.ci, si, q.Doc), q.Must != "" || (s.acked && logged))
+	if q.Must != "" && q.PwKind == "key-absent" && r.NeedSample() {
+		r.Sample(x.witness(q))
+	}
+}
+
+func c25NewHist(r *verifkit.R, e *c25Env, phase string, ci int, rng *verifkit.Rand, pw, hash string, serial bool) *c25Hist {
+	x := &c25Hist{r: r, e: e, phase: phase, ci: ci, w: newC25Writer(), serial: serial,
+		wl: []string{"run", "go", "a", "missing"}}
+	cfg := shell.Config{Enabled: true, Whitelist: x.wl, MaxSessions: rng.Intn(3)}
+	if rng.Chance(7, 8) {
+		x.pwSet, x.pw = true, pw
+		cfg.PasswordHash = hash
+	}
+	x.ex = shell.NewExecutor(cfg)
+	x.h = shell.NewHandler(x.ex, x.w, c25Logger())
+	wd, _ := os.Getwd()
+	if p, err := filepath.EvalSymlinks(wd); err == nil {
+		wd = p
+	}
+	x.cwd = wd
+	return x
+}
+
+func (x *c25Hist) finish() {
+	x.mu.Lock()
+	held := x.held
+	x.held = nil
+	x.mu.Unlock()
+	for _, s := range held {
+		for dl := time.Now().Add(c25Watchdog); !x.e.logged(s.req) && time.Now().Before(dl); {
+			time.Sleep(time.Millisecond)
+		}
+		x.h.HandleStreamClose(s.id)
+	}
+	x.h.Close()
+}
+
+// c25Histories: PRNG request sequences on one handler. The password is the same for every
+// history of the run, so state that leaks from one request (or one handler) into a later
+// request is presented to a verifier that would accept it. "hist" drives each handler from a
+// single goroutine, "hist-par" from four.
+func c25Histories(r *verifkit.R, e *c25Env) {
+	pw := "hist-" + r.CaseRand("hist-pw", 0).Token(14) + "aZ"
+	hb, err := bcrypt.GenerateFromPassword([]byte(pw), bcrypt.MinCost)
+	if err != nil {
+		r.Inconclusive("harness: " + err.Error())
+		return
+	}
+	if p, err := filepath.EvalSymlinks(e.bin); err == nil {
+		e.bin = p
+	}
+	steps := 24
+	r.Cases("hist", r.N(10, 400), func(ci int, rng *verifkit.Rand) {
+		x := c25NewHist(r, e, "hist", ci, rng, pw, string(hb), true)
+		defer x.finish()
+		for si := 0; si < steps; si++ {
+			x.step(rng, si)
+		}
+	})
+	r.Cases("hist-par", r.N(2, 60), func(ci int, rng *verifkit.Rand) {
+		x := c25NewHist(r, e, "hist-par", ci, rng, pw, string(hb), false)
+		defer x.finish()
+		var wg sync.WaitGroup
+		for g := 0; g < 4; g++ {
+			wg.Add(1)
+			gr := rng.Fork()
+			go func(g int) {
+				defer wg.Done()
+				for si := 0; si < steps*2/3; si++ {
+					x.step(gr, g*1000+si)
+				}
+			}(g)
+		}
+		wg.Wait()
 	})
 }
